@@ -318,6 +318,9 @@ func callRecv(c ssa.CallInstruction) ssa.Value {
 // instrsOf iterates over all instructions of a function in block order.
 func instrsOf(fn *ssa.Function, f func(in ssa.Instruction)) {
 	for _, b := range fn.Blocks {
+		if b == fn.Recover {
+			continue // synthetic block that returns the named results after a recovered panic
+		}
 		for _, in := range b.Instrs {
 			f(in)
 		}
